@@ -70,14 +70,22 @@ func c16Version(c *Ctx) {
 			continue
 		}
 		hasLoop := false
-		ir.EachInstr(neg, func(_ *ssa.BasicBlock, _ int, in ssa.Instruction) {
-			if _, ok := in.(*ssa.Range); ok {
-				hasLoop = true
-			}
-			if _, ok := in.(*ssa.IndexAddr); ok {
-				hasLoop = true
+		scan := []*ssa.Function{neg}
+		ir.EachCall(neg, func(call ssa.CallInstruction) {
+			if sc := ir.StaticCallee(call); sc != nil && c.P.IsLib(sc) {
+				scan = append(scan, sc) // the list may be walked by a predicate helper (supportsVersion(v))
 			}
 		})
+		for _, f := range scan {
+			ir.EachInstr(f, func(_ *ssa.BasicBlock, _ int, in ssa.Instruction) {
+				if _, ok := in.(*ssa.Range); ok {
+					hasLoop = true
+				}
+				if _, ok := in.(*ssa.IndexAddr); ok {
+					hasLoop = true
+				}
+			})
+		}
 		if !hasLoop {
 			c.R.Violate("R-version-select", "negotiation in "+fname(neg), c.Pos(neg.Pos()), sprintf("%s, which decides the answered protocol version, never consults a list of supported versions", fname(neg)))
 			continue
@@ -168,6 +176,59 @@ func checkNegotiator(c *Ctx, neg *ssa.Function) {
 				matched = true
 			}
 		}
+		// ... or on the true edge of a predicate helper that returns true only after such a test of its argument
+		for _, g := range pd.ControlDepsTransitive(r.Block()) {
+			hc, ok := g.If.Cond.(*ssa.Call)
+			if !ok || !g.Branch || matched {
+				continue
+			}
+			sc := ir.StaticCallee(hc)
+			if sc == nil || !c.P.IsLib(sc) {
+				continue
+			}
+			pj := -1
+			for j, a := range hc.Call.Args {
+				if a == res && j < len(sc.Params) {
+					pj = j
+				}
+			}
+			if pj < 0 {
+				continue
+			}
+			hpd := flow.NewPostDom(sc)
+			allTrue, nTrue := true, 0
+			ir.EachInstr(sc, func(b *ssa.BasicBlock, _ int, in2 ssa.Instruction) {
+				hr, ok := in2.(*ssa.Return)
+				if !ok || b == sc.Recover || len(ir.Results(hr)) != 1 {
+					return
+				}
+				if cst, ok := ir.Results(hr)[0].(*ssa.Const); ok && cst.Value != nil && cst.Value.String() == "false" {
+					return
+				}
+				nTrue++
+				okRet := false
+				for _, hg := range hpd.ControlDepsTransitive(b) {
+					hb, ok := hg.If.Cond.(*ssa.BinOp)
+					if !ok || hb.Op != token.EQL || !hg.Branch {
+						continue
+					}
+					ex, lfx := listElement(hb.X)
+					ey, lfy := listElement(hb.Y)
+					if ex && hb.Y == ssa.Value(sc.Params[pj]) {
+						okRet, listField = true, lfx
+					}
+					if ey && hb.X == ssa.Value(sc.Params[pj]) {
+						okRet, listField = true, lfy
+					}
+				}
+				if !okRet {
+					allTrue = false
+				}
+			})
+			if allTrue && nTrue > 0 {
+				matched = true
+			}
+		}
 		if !matched {
 			okAll = false
 			c.R.Violate("R-version-select", construct+": returned value", ipos(c, r),
@@ -205,7 +266,18 @@ func checkNegotiator(c *Ctx, neg *ssa.Function) {
 				}
 			}
 			if f.Key() == listField {
-				if sl, ok := st.Val.(*ssa.Slice); ok {
+				lv := st.Val
+				// the list may come from a function that returns the literal (serverProtocolVersions())
+				if lc, ok := lv.(*ssa.Call); ok {
+					if sc := ir.StaticCallee(lc); sc != nil && c.P.IsLib(sc) {
+						ir.EachInstr(sc, func(b *ssa.BasicBlock, _ int, in3 ssa.Instruction) {
+							if r, ok := in3.(*ssa.Return); ok && b != sc.Recover && len(ir.Results(r)) == 1 {
+								lv = ir.Results(r)[0]
+							}
+						})
+					}
+				}
+				if sl, ok := lv.(*ssa.Slice); ok {
 					if al, ok := sl.X.(*ssa.Alloc); ok {
 						for _, r := range *al.Referrers() {
 							if ia, ok := r.(*ssa.IndexAddr); ok {
